@@ -82,6 +82,17 @@ class Gen:
             return ("ident", self.pick(ls))
         leaf = d >= self.max_depth or self.chance(0.2 + 0.15 * d)
         r = self.rng.random()
+        if ty in ("bool", "double", "int") and not leaf and self.chance(0.07):
+            # an unsigned operand combined with a bare literal stays unsigned: the result is then used where signed and unsigned arithmetic differ (division, remainder,
+            # shift right, comparison, conversion to double / int) -- values of 2^31 and above are ordinary uint values
+            u = ("binary", self.pick(["+", "*", "|", "-"]), self.prop("uint", d + 1), ("int", self.pick([1, 2, 3, 16])))
+            if self.chance(0.5):
+                u = ("binary", u[1], u[3], u[2]) if u[1] in ("+", "*", "|") else u
+            if self.chance(0.5):
+                u = ("binary", self.pick(["/", "%", ">>"]), u, ("int", self.pick([1, 2, 3, 7])))
+            if ty == "bool":
+                return ("binary", self.pick(["<", ">", "<=", ">=", "=="]), u, ("int", self.pick([0, 5, 100, 40])))
+            return ("as", u, ["double"] if ty == "double" else ["int"])
         if ty == "bool":
             if leaf:
                 return self.pick([self.lit("bool"), self.prop("bool", d), self.prop("bool", d), ("call", ("member", self.obj(d), "flag"), [])])
@@ -464,6 +475,19 @@ class Gen:
             tail = {"double": ("ternary", test, ("unary", "-", ("float", "1.0")), ("ident", "r")), "bool": test,
                     "int": ("ternary", test, ("int", 1), ("int", 2)), "string": ("ternary", test, ("str", "n/a"), ("str", "ok"))}[t]
             return ("binding_block", [("decl", "let", [("r", None, ("binary", self.pick(["/", "-", "*"]), num, den))]), ("return", tail)]), t
+        if self.chance(0.05):
+            # a variable that holds a constant first and is then re-assigned from a property: the returned value is the LATER one (straight-line code, one block)
+            t = self.pick(["int", "string", "double", "bool"])
+            c0 = self.lit(t)
+            upd = {"int": ("binary", self.pick(["+", "-", "*"]), ("ident", "acc"), self.prop("int", 1)), "string": ("binary", "+", ("ident", "acc"), self.prop("string", 1)),
+                   "double": ("binary", self.pick(["+", "*"]), ("ident", "acc"), self.prop("double", 1)), "bool": self.prop("bool", 1)}[t]
+            body = [("decl", "let", [("acc", ANNOT[t] if self.chance(0.3) else None, c0)])]
+            if self.chance(0.3):
+                body.append(("decl", "const", [("keep", None, ("ident", "acc"))]))
+            body.append(("expr", ("assign", ("ident", "acc"), upd)))
+            body.append(("return", ("ident", "acc")))
+            self.reassigned_consts = getattr(self, "reassigned_consts", 0) + 1
+            return ("binding_block", body), t
         if self.chance(0.45):
             e = self.typed(t, 0) if t in ("int", "uint") else self.expr(t, 0)
             return ("binding_expr", e), t
@@ -603,6 +627,16 @@ class TotalGen:
     def binding(self):
         t = self.pick(["bool", "int", "uint", "string", "vobj", "int", "string", "double"])
         r = self.rng.random()
+        if self.rng.random() < 0.06 and t in ("int", "string", "bool"):
+            # a variable that holds a constant first and is then re-assigned from a property: the returned value is the LATER one (straight-line code, one block)
+            c0 = {"int": ("int", self.pick([0, 5, 12])), "string": ("str", self.pick(STRS)), "bool": ("bool", self.rng.random() < 0.5)}[t]
+            rd = ("member", ("ident", self.pick(["a", "b", "sub"])), PROP[t])
+            upd = {"int": ("binary", self.pick(["|", "^", "&"]), ("ident", "acc"), rd), "string": ("binary", "+", ("ident", "acc"), rd), "bool": rd}[t]
+            body = [("decl", "let", [("acc", None, c0)])]
+            if self.rng.random() < 0.3:
+                body.append(("decl", "const", [("keep", None, ("ident", "acc"))]))
+            body += [("expr", ("assign", ("ident", "acc"), upd)), ("return", ("ident", "acc"))]
+            return ("binding_block", body), t
         if r < 0.15 and t in ("int", "uint", "string", "bool"):
             # a pointer local re-pointed between two reads of the same property (both objects chosen dynamically, never null)
             def sel():
